@@ -572,6 +572,10 @@ func init() {
 			if x == nil {
 				return e.ts.BV(64, 0)
 			}
+			if st, ok := x.v.(*Struct); ok && len(st.f) == 0 {
+				// all zero-size allocations share one address (runtime.zerobase)
+				return e.ts.BV(64, 0xc000000000)
+			}
 			return e.ts.BV(64, e.addrOf(x))
 		case *MapObj:
 			if x == nil {
